@@ -60,6 +60,41 @@ func ruleC01Unwrap(p *Program, r *Run) {
 			})
 		}
 	}
+	// whatever the unwrapping idiom is: no text is ever written for a node that may still be a ParenExpr
+	g := p.Grammar()
+	type w struct {
+		n   int
+		bad *emitEvent
+	}
+	writers := map[string]*w{}
+	for _, o := range g.occs {
+		if g.xParamOf(o.Ev.Func) == nil {
+			continue
+		}
+		ww := writers[o.Ev.FnName]
+		if ww == nil {
+			ww = &w{}
+			writers[o.Ev.FnName] = ww
+		}
+		ww.n++
+		if hasStr(o.Kinds, "*parser.ParenExpr") && ww.bad == nil {
+			ww.bad = o.Ev
+		}
+	}
+	var names []string
+	for n := range writers {
+		names = append(names, n)
+	}
+	sort.Strings(names)
+	for _, n := range names {
+		ww := writers[n]
+		key := n + " never writes while its node may be a ParenExpr"
+		if ww.bad == nil {
+			r.PassNT("C01/unwrap", key, "-", fmt.Sprintf("path facts exclude *parser.ParenExpr at all %d emission occurrences", ww.n))
+		} else {
+			r.Fail("C01/unwrap", key, p.Pos(ww.bad.Call.Pos()), "SQL text is written on a path where the node can still be a *parser.ParenExpr (source parentheses are not removed completely before dispatch): nested parentheses reach the `unhandled expression` fallback or are treated as operands of the wrong class")
+		}
+	}
 	r.Floor("C01/unwrap", 3)
 }
 
@@ -367,7 +402,14 @@ func ruleC05Dead(p *Program, r *Run, handledBin, producedBin map[string]string) 
 		name := TypeStr(t)
 		key := "pql.writeExpression handles expression kind " + name
 		if name == "*parser.ParenExpr" {
-			r.Pass("C05/dead", key, p.Pos(exprSw.Stmt.Pos()), "removed by the unwrap loop before the switch (C01/unwrap)")
+			// must be excluded by path facts wherever the writer writes
+			bad := false
+			for _, o := range p.Grammar().occs {
+				if o.Ev.Func == we && hasStr(o.Kinds, "*parser.ParenExpr") {
+					bad = true
+				}
+			}
+			r.Check(!bad, "C05/dead", key, p.Pos(exprSw.Stmt.Pos()), "excluded by path facts before the switch (parentheses are unwrapped completely)", "a *parser.ParenExpr can reach the expression switch, which has no case for it: the `unhandled expression` placeholder reaches the output")
 			continue
 		}
 		r.Check(handledT[name], "C05/dead", key, p.Pos(exprSw.Stmt.Pos()), "has a case", name+" implements Expr but the expression writer has no case for it: the `unhandled expression` placeholder reaches the output")
